@@ -58,7 +58,7 @@ fn miri_slice(ctx: &mut Ctx, _args: &Args) {
     ctx.assumptions.push("Miri slice: single-threaded interpretation (-Zmiri-symbolic-alignment-check) of a few hundred operations per element type; the value oracles are those of the full workload".into());
     // Miri interprets this crate (unoptimised, model and library alike) ~10^4..10^5 times slower than the
     // strict build runs it: one history step with all its observers costs ~1 s.
-    let steps: usize = std::env::var("VF_MIRI_STEPS").ok().and_then(|s| s.parse().ok()).unwrap_or(ctx.tier.pick(16, 150));
+    let steps: usize = std::env::var("VF_MIRI_STEPS").ok().and_then(|s| s.parse().ok()).unwrap_or(ctx.tier.pick(12, 100));
     {
         let ex2 = ex_bytes();
         let ok2 = matches!(codec::ref_decode(&ex2, 0, u32::MAX), codec::RefOut::Ok{ref members, consumed: 7, ..} if *members == Iv::from_points([2, 33, 323]));
@@ -104,7 +104,7 @@ fn miri_slice(ctx: &mut Ctx, _args: &Args) {
         codec.decode_arbitrary(ctx, &[], bias, max, "len0");
         codec.decode_arbitrary(ctx, &ex_bytes(), bias, max, "spec-example-2");
     }
-    for _ in 0..ctx.tier.pick(12, 120) {
+    for _ in 0..ctx.tier.pick(8, 120) {
         let len = rng.usize(10);
         let mut data = rng.bytes(len);
         if rng.bool() {
